@@ -60,7 +60,9 @@ def main():
         print(json.dumps(w, indent=1)); return 0
 
     nshards = getattr(mod, 'SHARDS', {}).get(a.tier, 1)
-    if a.shard is None and nshards > 1:
+    if a.shard is None:
+        # also with a single shard: the worker is a subprocess under a wall-clock watchdog, so a hang (a deadlock in the
+        # code under test, a stuck scheduler) ends as INCONCLUSIVE instead of never ending
         timeout = getattr(mod, 'SHARD_TIMEOUT', {}).get(a.tier, 1500)
         ctx = common.run_sharded(mod.__name__, a.pid, level, a.tier, a.seed, nshards, timeout)
         return ctx.finish(meta)
